@@ -16,18 +16,29 @@ SKIP_TRAITS = {"std::fmt::Debug", "std::hash::Hash", "std::cmp::Eq", "std::clone
 
 def is_entry(fn):
     p = fn["path"]
-    if "array::vec" in p:
-        return False
+    if fn["sp"].startswith("src/array/vec/"):
+        return False   # the Vec backend is axiomatised (array contract), not analysed
     if p.startswith("semifinite::arrow") or "semifinite::arrow::SemifiniteArrow" in p:
         return False   # SemifiniteArrow: not anchored by any property (4 todo!() bodies)
     if fn.get("impl_trait") in SKIP_TRAITS:
         return False
     if fn.get("vis") != "pub" and not os.environ.get("OHSA_ALL"):
         return False   # crate-private helpers are analysed in the context of their public callers
+    if private_self_type(fn):
+        return False   # impls on private helper types (lax::optic::Fwd/Rev, ForgetMonogamous): reached through their public users
     m = fn.get("mac")
     if m and any("derive" in x or x in ("Clone", "PartialEq", "Debug", "Hash", "Eq") for x in m):
         return False
     return True
+
+
+PRIVATE_TYPES = set()
+
+
+def private_self_type(fn):
+    s = fn.get("impl_self", "")
+    base = s.lstrip("&").split("<")[0]
+    return base in PRIVATE_TYPES
 
 
 def param_name(p, i):
@@ -42,6 +53,9 @@ def param_name(p, i):
 class Shapecheck:
     def __init__(self, facts):
         self.facts = facts
+        for sp, sd in facts.structs.items():
+            if sd.get("vis") == "priv":
+                PRIVATE_TYPES.add(sp)
         self.I = Interp(facts)
         self.results = {}     # entry key -> dict
         self.errors = {}      # entry key -> message
@@ -99,6 +113,7 @@ class Shapecheck:
             names = [param_name(p, i) for i, p in enumerate(fn["params"])]
             vals0 = [st.env[a.place[0]] if isinstance(a, VMutRef) else a for a in args]
             self.entry_assumed[key] = specs.entry_assumptions(fn["path"], names, vals0, st, self, fr0)
+            self.entry_assumed[key] += specs.override_args(fn["path"], names, args, st)
             t0 = time.time()
             import signal
 
@@ -217,6 +232,11 @@ def main():
         print("ERROR", key, "::", msg)
     print(f"\nentries ok={len(sc.results)} errors={len(sc.errors)} failed-obligations={nfail} "
           f"total-obligations={len(sc.I.obligations)} time={time.time()-t0:.1f}s")
+    if only and os.environ.get("OHSA_LOOPS"):
+        for l in sc.I.loop_info:
+            print("LOOP", l["fn"].split("::")[-1], l["loop"], l["what"], "iters", l["iterations"])
+            for i in l["invariants"]:
+                print("      inv:", i[:200])
     print("unmodelled:", {k: len(v) for k, v in sc.I.unmodelled.items()})
     print("assumptions:", sc.I.assumptions, "lemmas:", sc.I.lemma_uses)
     import rules_terms
